@@ -27,7 +27,7 @@ ASSUMPTIONS = [
 ]
 BUDGET = {"quick": 70, "thorough": 600}
 ROUNDS = {"thorough": 16}
-FLOORS = {"after_update_comparisons": {"quick": 500, "thorough": 5000}, "overlay.C04.p_t_judged": {"quick": 100, "thorough": 1500}, "expm_comparisons": 50, "identity_checks": 50, "kinds": 9}
+FLOORS = {"after_update_comparisons": {"quick": 500, "thorough": 5000}, "overlay.C04.p_t_judged": {"quick": 100, "thorough": 1500}, "expm_comparisons": 50, "identity_checks": 50, "kinds": 9, "short_branch_derivatives": {"quick": 1500, "thorough": 8000}}
 
 # SHA-256 of ("%.6f," per value) of the empirical tables at the baseline commit
 EMPIRICAL_SHA = {
@@ -194,6 +194,18 @@ def _run_case(case):
     C["identity_checks"] += 1
     if abs(flux - 1.0) > 1e-4 * max(1.0, float(np.abs(Qn).max())):
         V.append(tt.viol("C04:p_t:normalisation:" + kind, "expected substitution rate under pi is %.8g, not 1" % flux, spec=spec))
+    # the short-branch end: (P(t) - I) / t is Q for t far below 1 / |Q| - entry by entry, which an absolute comparison of P(t) with the
+    # matrix exponential cannot see (the off-diagonal entries are of the size of t)
+    for t0 in (1e-10, 1e-13, 1e-16):
+        D0 = (model.p_t(torch.tensor([[t0]], dtype=torch.float64)).detach().numpy()[0, 0] - np.eye(S)) / t0
+        C["short_branch_derivatives"] = C.get("short_branch_derivatives", 0) + 1
+        qmax = float(np.abs(Qn).max())
+        slack = 1e-6 * qmax + 1e3 * 2.2e-16 * cond2 * qmax + t0 * float(np.abs(Qn @ Qn).max())
+        off = ~np.eye(S, dtype=bool)
+        d0 = np.abs(D0 - Qn)[off].max()
+        if not d0 <= slack:
+            V.append(tt.viol("C04:p_t:short-branch:" + kind, "(P(t) - I)/t at t=%g differs from Q off the diagonal by %.3g (largest rate %.3g)" % (t0, d0, qmax), spec=spec, t=t0))
+            break
     # --- after an update of some of the parameters through the public interface, p_t is that of the updated model
     names_u = {"HKY": ["kappa", "pi"], "GTR": ["rates", "pi"], "GenSym": ["rates", "pi"], "GenNonSym": ["rates", "pi"], "MG94": ["alpha", "beta", "kappa", "pi"]}.get(kind)
     if names_u and not V:
